@@ -198,8 +198,9 @@ def part_vm(chk, drv, recs):
                                                                  'primed_with': [list(g) for g in shipped]})
 
 
-def hostile_battle(game, version, seed, method):
+def hostile_battle(game, version, seed, method, payload=None, tag='c18'):
     """a complete battle plus one extra call of `method` whose blob arguments are the hostile pickle"""
+    payload = HOSTILE if payload is None else payload
     b, exp, err = battlecheck.make_battle(game, version, seed, rich=False)
     if b is None:
         return None
@@ -212,19 +213,19 @@ def hostile_battle(game, version, seed, method):
         key = an if an is not None else j
         pt = history.peel(t)
         if pt['k'] in ('blob', 'string'):
-            args[key] = {'b': HOSTILE.hex()}
+            args[key] = {'b': payload.hex()}
             found = True
         elif pt['k'] == 'dict':
             v = battle.benign(t, an or '')
             for fname in ('playersStates', 'preBattlesInfo', 'buildingsInfo'):
                 r = battle.find_field(t, v, fname)
                 if r and history.peel(r[0])['k'] == 'blob':
-                    r[1][1] = {'b': HOSTILE.hex()}
+                    r[1][1] = {'b': payload.hex()}
                     found = True
             args[key] = v
     if not found or not b.call(battle.AVATAR_ID, method, args):
         return None
-    return battlecheck.write_battle(b, 'c18-%s-%s-%s' % (game, version, method))
+    return battlecheck.write_battle(b, '%s-%s-%s-%s' % (tag, game, version, method))
 
 
 def hostile_versions(chk):
